@@ -33,6 +33,8 @@ def seq(check, tier, shards=1, extra=None, race=False):
     ts = []
     for i in range(shards):
         argv = ["seq", "-check", check, "-tier", tier, "-shard", "%d/%d" % (i, shards)] + (extra or [])
+        # internal deadline: a capped enumeration is reported as exhaustive:false, never as a verdict
+        argv += ["-timeout", "5m" if tier == "quick" else "15m"]
         ts.append({"kind": "seq", "argv": argv, "group": check, "race": race})
     return ts
 
@@ -55,6 +57,9 @@ def tasks_c01(tier, seed):
         ts += explore("Q1", CFG_DEFAULT, 0, shards=1, timeout="60s")
         # Q5: query requests, expiry and a concurrent callback of the same (non-default) group
         ts += explore("QEconc", CFG_DEFAULT, 1, shards=8, timeout="100s") + explore("QE1-model", CFG_DEFAULT, 1, shards=2, timeout="100s")
+        # expiry while Shutdown waits for a callback of the same group; restart after Shutdown dropped queued work
+        ts += explore("QEshutdownBusy", "w1-in4-default-direct", 2, shards=4, timeout="100s")
+        ts += explore("S8", "w1-in4-default-direct", 2, shards=1, timeout="100s") + explore("S8r", "w1-in4-default-direct", 2, shards=2, timeout="100s")
     else:
         T = "10m"
         for c in cfg_axis():
@@ -68,17 +73,22 @@ def tasks_c01(tier, seed):
         ts += explore("Q1", CFG_DEFAULT, 1, shards=16, timeout=T)
         ts += explore("Q1s", "w1-in4-default-direct", 3, shards=16, timeout=T)
         ts += explore("QEconc", CFG_DEFAULT, 2, shards=16, timeout=T) + explore("QE1-model", CFG_DEFAULT, 2, shards=8, timeout=T)
+        for sc in ("QEshutdownBusy", "S8", "S8r"):
+            ts += explore(sc, "w1-in4-default-direct", 3, shards=8, timeout=T) + explore(sc, CFG_DEFAULT, 2, shards=8, timeout=T)
     return ts
 
 
 def tasks_c03(tier, seed):
     ts = []
-    scens = ["S1", "S2", "S3Reset", "S3ResetAll", "S3TokenEvent", "S3TokenEventWithID", "S3TokenReset", "S4", "S6", "S7", "Q6", "QEshutdown"]
+    scens = ["S1", "S2", "S3Reset", "S3ResetAll", "S3TokenEvent", "S3TokenEventWithID", "S3TokenReset", "S4", "S4q", "S6", "S7", "S8", "S8r", "Q6",
+             "QEshutdown", "QEshutdownBusy"]
     if tier == "quick":
         for s in scens:
-            big = s in ("S1", "S2", "Q6")
+            big = s in ("S1", "S2", "Q6", "S8r", "QEshutdownBusy")
             ts += explore(s, "w1-in4-default-direct", 2, shards=4 if big else 1, timeout="100s")
-            if s != "Q6":
+            if s in ("S8", "S8r", "QEshutdownBusy", "S4q"):
+                ts += explore(s, CFG_DEFAULT, 1, shards=2, timeout="100s")
+            elif s != "Q6":
                 ts += explore(s, CFG_DEFAULT, 1 if big else 2, shards=2 if big else 1, timeout="100s")
     else:
         for s in scens:
@@ -92,7 +102,13 @@ def tasks_c03(tier, seed):
 
 
 def tasks_c04(tier, seed):
-    return seq("c04", tier, shards=16)
+    ts = seq("c04", tier, shards=16)
+    # requests to a restarted service (Shutdown dropped queued work of the same resource)
+    if tier == "quick":
+        ts += explore("S8r", "w1-in4-default-direct", 2, shards=2, timeout="100s")
+    else:
+        ts += explore("S8r", "w1-in4-default-direct", 3, shards=8, timeout="10m") + explore("S8r", CFG_DEFAULT, 2, shards=8, timeout="10m")
+    return ts
 
 
 def tasks_c05(tier, seed):
@@ -120,14 +136,14 @@ def tasks_c18(tier, seed):
 
 
 QE_SCENS = ["QE0", "QE1-model", "QE1-events", "QE1-error", "QE1-notfound", "QE1-panic", "QE1-nothing", "QE1-timeout", "QE1-twice",
-            "QE2", "QEempty", "QEnopayload", "QEfail", "QEconc", "QEchain", "QEshutdown"]
+            "QE2", "QEempty", "QEnopayload", "QEfail", "QEconc", "QEchain", "QEshutdown", "QEshutdownBusy"]
 
 
 def tasks_c15(tier, seed):
     ts = []
     w1 = "w1-in4-default-direct"
     for s in QE_SCENS:
-        big = s in ("QE2", "QEconc")
+        big = s in ("QE2", "QEconc", "QEshutdownBusy")
         if tier == "quick":
             ts += explore(s, w1, 2, shards=6 if big else 1, timeout="100s")
             if not big:
@@ -199,8 +215,11 @@ def tasks_c16(tier, seed):
     ts += explore("Q2", CFG_DEFAULT, 2, race=True, shards=2, timeout=to)
     ts += explore("Q2", "w2-in4-literal-mount", 2, race=True, shards=2, timeout=to)
     ts += seq("burst", tier, race=True)
-    for s in ["QE1-model", "QE1-panic", "QE2", "QEfail", "QEconc", "QEchain", "QEshutdown"]:
+    for s in ["QE1-model", "QE1-panic", "QE2", "QEfail", "QEconc", "QEchain", "QEshutdown", "QEshutdownBusy"]:
         ts += explore(s, w1, b, race=True, timeout=to)
+    # two workers: a query callback running beside a callback of the same group would race on the group's scratch word
+    ts += explore("QEconc", CFG_DEFAULT, b, race=True, shards=6, timeout=to)
+    ts += explore("S8", w1, b, race=True, timeout=to) + explore("S4q", w1, b, race=True, timeout=to)
     ts += STORE_RACE_TASKS(tier)
     return ts
 
